@@ -40,7 +40,8 @@ enum StmtK { ST_DECL, ST_DEFAULT, ST_ASSIGN, ST_IF, ST_ELSE, ST_ELSEIF, ST_ELSEI
              ST_ILIT, ST_IEXT, ST_ICOPY, ST_IASSIGN, ST_IVAR, ST_CMP,
              // enable scope ENIF (c) { body }; clocked statements whose (write) enable is observed: auto t = reg(e);  Memory<UInt> mem(2^aw, w_b); mem[addr] = d;
              ST_ENIF, ST_REG, ST_MEMW,
-             ST_RESET };   // x.resetNode(); x = e;  (the vector is re-created: every alias cache of x must be dropped)
+             ST_RESET,
+             ST_DEFASSIGN };   // x = BitDefault(bit); on an existing Bit (a further default on an already assigned / defaulted signal)   // x.resetNode(); x = e;  (the vector is re-created: every alias cache of x must be dropped)
 struct Stmt {
 	StmtK k = ST_DECL; Ty ty; std::string bits; int x = 0; std::vector<Sel> path; Expr e; std::vector<Stmt> body;
 	char ikind = 'u';      // 'u' UInt literal (policy zero), 's' SInt literal (policy sign), 'z' zext(e) (zero), 'o' oext(e) (one)
@@ -92,6 +93,7 @@ static void printStmts(std::ostream &o, const std::vector<Stmt> &ss) {
 			case ST_REG: o << "RG "; printExpr(o, s.e); o << '\n'; break;
 			case ST_MEMW: o << "MW "; printExpr(o, s.e); o << ' '; printExpr(o, s.e2); o << '\n'; break;
 			case ST_RESET: o << "RN " << s.x << ' '; printExpr(o, s.e); o << '\n'; break;
+			case ST_DEFASSIGN: o << "FA " << s.x << ' ' << s.bits << '\n'; break;
 		}
 	}
 }
@@ -139,6 +141,7 @@ static std::vector<Stmt> parseStmts(std::istream &in) {
 		else if (h == "E2") { s.k = ST_ELSEIF2; s.e = parseExpr(tk); s.body = parseStmts(in); }
 		else if (h == "EN") { s.k = ST_ENIF; s.e = parseExpr(tk); s.body = parseStmts(in); }
 		else if (h == "RG") { s.k = ST_REG; s.e = parseExpr(tk); }
+		else if (h == "FA") { s.k = ST_DEFASSIGN; s.x = atoi(tk.next().c_str()); s.bits = tk.next(); }
 		else if (h == "RN") { s.k = ST_RESET; s.x = atoi(tk.next().c_str()); s.e = parseExpr(tk); }
 		else if (h == "MW") { s.k = ST_MEMW; s.e = parseExpr(tk); s.e2 = parseExpr(tk); }
 		else if (h == "IL") { s.k = ST_ILIT; s.ikind = tk.next()[0]; s.lit = atoll(tk.next().c_str()); }
@@ -526,6 +529,7 @@ struct Gen {
 	void genBlock(std::vector<Stmt> &out, int n, bool keepLocals = false) {
 		size_t nvars = vars.size(), nivars = ivars.size();
 		while (n > 0 && budget > 0) {
+			if (rng.chance(1, 40)) { auto c = varsOf([&](const VarInfo &v) { return v.ty.isBit; }); if (!c.empty()) { Stmt f; f.k = ST_DEFASSIGN; f.x = c[rng.below(c.size())]; f.bits = randBits(1); out.push_back(f); budget--; n--; continue; } }
 			if (aliasPending && rng.chance(1, 4)) { genAliasPattern(out); n--; continue; }
 			if (intPending && rng.chance(1, 4)) { genIntPattern(out); n--; continue; }
 			if (enPending && rng.chance(1, 4)) { genEnPattern(out); n--; continue; }
@@ -543,6 +547,21 @@ struct Gen {
 				// only Bit has a usable default (`UInt v = UIntDefault(..)` asserts valid(): BaseBitVector(const BaseBitVectorDefault&) reads the not yet created node)
 				Stmt s; s.k = ST_DEFAULT; s.ty = (malformed && !didMalform && rng.chance(1, 2)) ? (didMalform = true, Ty{false, 3}) : Ty{}; s.bits = randBits(s.ty.w);
 				out.push_back(s); vars.push_back({s.ty, true, depth, false});
+				if (s.ty.isBit && !didMalform && rng.chance(1, 2)) {
+					// several defaults on one signal: `v = BitDefault(a); IF (c) v = e; v = BitDefault(b);` - the later default must not override
+					// the first one nor the conditional assignment (DefaultValueResolution decides by feedback loops through the Node_Defaults)
+					int x = (int)vars.size() - 1;
+					auto fa = [&](std::vector<Stmt> &dst) { Stmt f; f.k = ST_DEFASSIGN; f.x = x; f.bits = randBits(1); dst.push_back(f); budget--; };
+					if (rng.chance(1, 3)) fa(out);
+					if (depth < maxDepth && rng.chance(3, 4)) {
+						Stmt c; c.k = ST_IF; c.e = genCond(nullptr);
+						Stmt a; a.k = ST_ASSIGN; a.x = x; a.e = genExpr(Ty{}, 1); c.body.push_back(a);
+						if (rng.chance(1, 3)) fa(c.body);                       // a default at a nested scope level
+						out.push_back(c); budget -= 2;
+						if (rng.chance(1, 3)) { Stmt e; e.k = ST_ELSE; fa(e.body); if (rng.chance(1, 2)) { Stmt a2 = a; a2.e = genExpr(Ty{}, 1); e.body.push_back(a2); } out.push_back(e); budget--; }
+					}
+					fa(out);
+				}
 			} else if (k < 62 || depth >= maxDepth) {
 				Stmt s; s.k = ST_ASSIGN;
 				// prefer outer, non-input variables
@@ -883,6 +902,11 @@ struct Exec {
 					vars.push_back(std::move(v));
 					break;
 				}
+				case ST_DEFASSIGN: {
+					if (s.x < 0 || s.x >= (int)vars.size() || !vars[s.x].b) throw std::runtime_error("type");
+					*vars[s.x].b = BitDefault(s.bits[0] == '1' ? '1' : '0');
+					break;
+				}
 				case ST_RESET: {
 					if (s.x < 0 || s.x >= (int)vars.size() || !vars[s.x].u || exprIsBit(s.e)) throw std::runtime_error("type");
 					UInt v = evalU(s.e);                 // the right-hand side may read x: evaluate it before the reset
@@ -935,7 +959,7 @@ struct Exec {
 };
 
 static bool hasClocked(const std::vector<Stmt> &ss) { for (auto &s : ss) if (s.k == ST_REG || s.k == ST_MEMW || hasClocked(s.body)) return true; return false; }
-static bool hasDefault(const std::vector<Stmt> &ss) { for (auto &s : ss) if (s.k == ST_DEFAULT || hasDefault(s.body)) return true; return false; }
+static bool hasDefault(const std::vector<Stmt> &ss) { for (auto &s : ss) if (s.k == ST_DEFAULT || s.k == ST_DEFASSIGN || hasDefault(s.body)) return true; return false; }
 
 static void runCase(std::ostream &o, const std::string &id, const Program &p, Rng &vrng, int exhBits, int nRandom) {
 	o << "case " << id << (p.aliasPattern ? " alias" : "") << (p.intPattern ? " intlit" : "") << (p.enPattern ? " enable" : "") << (p.chainPattern ? " chains" : "") << (p.useMacros ? " macros" : "") << (p.malformed ? " malformed" : "") << "\n";
